@@ -53,6 +53,19 @@ pub fn apply(lib: &Library) -> Result<String, Vec<Diagnostic>> {
         .map_err(|e| vec![e])
 }
 
+/// Returns the digits after the decimal point for a number of microseconds.
+///
+/// The digits are the microseconds padded to six places (so that 50000
+/// microseconds is .05 and not .5) without the trailing zeros, but always
+/// at least two digits.
+fn fraction_of_second(micro: u32) -> String {
+    let mut digits = format!("{:0>6}", micro);
+    while digits.len() > 2 && digits.ends_with('0') {
+        digits.pop();
+    }
+    digits
+}
+
 struct LibraryRenderer {
     buffer: String,
     indents: usize,
@@ -169,11 +182,14 @@ impl Visitor<Diagnostic> for LibraryRenderer {
         &mut self,
         node: &TimeOfDayLiteral,
     ) -> Result<Self::Value, Diagnostic> {
-        let (hr, min, sec, milli) = node.hmsm();
+        let (hr, min, sec, micro) = node.hmsm();
         self.write_ws(
             format!(
-                "TIME_OF_DAY#{:0>2}:{:0>2}:{:0>2}.{:0>2}",
-                hr, min, sec, milli
+                "TIME_OF_DAY#{:0>2}:{:0>2}:{:0>2}.{}",
+                hr,
+                min,
+                sec,
+                fraction_of_second(micro)
             )
             .as_str(),
         );
@@ -190,12 +206,18 @@ impl Visitor<Diagnostic> for LibraryRenderer {
         &mut self,
         node: &DateAndTimeLiteral,
     ) -> Result<Self::Value, Diagnostic> {
-        let (hr, min, sec, milli) = node.hmsm();
+        let (hr, min, sec, micro) = node.hmsm();
         let (year, month, day) = node.ymd();
         self.write_ws(
             format!(
-                "DATE_AND_TIME#{:0>4}-{:0>2}-{:0>2}-{:0>2}:{:0>2}:{:0>2}.{:0>2}",
-                year, month, day, hr, min, sec, milli
+                "DATE_AND_TIME#{:0>4}-{:0>2}-{:0>2}-{:0>2}:{:0>2}:{:0>2}.{}",
+                year,
+                month,
+                day,
+                hr,
+                min,
+                sec,
+                fraction_of_second(micro)
             )
             .as_str(),
         );
